@@ -51,6 +51,30 @@ CHECKS["C15"] = dict(
     design="3/C15",
 )
 
+CHECKS["C08"] = dict(
+    technique="symbolic tensor execution of the real MPS routines threading one canonical-form record, LAPACK contract stubs; certificates found by hypothesis elimination + polynomial reduction and checked by z3 (QF_LRA)",
+    text="Bounded symbolic model checking. (i) Histories of <= 3 operations (canonicalize, swaps, swap_site_to, one/two-site gates incl. swap+split / nonlocal / sub-MPO, compress_site, "
+         "measure, canonical queries) are run on a symbolic MPS (L <= 4, D = d = 2); after every operation the state equals the reference and every claim of the outgoing record "
+         "(left/right isometry of each site outside the range, every left_inds flag) is certified modulo the stub contracts. (ii) One inductive step: on an arbitrary state that "
+         "satisfies a record (c, c) by hypothesis, every consumer (Schmidt values, canonical expectation, reduced density matrix, magnetization, measurement with/without removal) "
+         "equals the dense definition and leaves a sound record.",
+    note="Trusted: z3, qv engines (Poly normaliser, elimination/reduction = certificate search; z3 checks the certificate), LAPACK contracts (stubs), 'isometric conjugation "
+         "preserves the non-zero spectrum' (Schmidt values). Outside: count_canonized/calc_current_orthog_center (allclose detector), cyclic MPS, truncation, RNG, complex symbolic "
+         "entries (np.real on object arrays), L > 4.",
+    design="3/C08",
+)
+CHECKS["C19"] = dict(
+    technique="concolic execution (z3 bit-vectors / integers) of the real rank/unrank kernels and HilbertSpace API on a symbolic rank; symbolic-bit execution of the coupling kernel; symbolic-coefficient execution of term rewrites and MPO builders with z3 identity queries",
+    text="Bounded symbolic model checking. Ranking is proved an order-preserving bijection of the right size for every sector (no symmetry / Z2 up to n = 62 as 64-bit bit-vectors on one "
+         "path; mixed radix; U1 up to n = 10; U1xU1 up to (4,4)), also through HilbertSpace with arbitrary labels, orderings, species. The coupling kernel runs on symbolic basis bits and is "
+         "compared with an independent operator-string reference; 19 matrix representations, all symmetry sectors, Jordan-Wigner and Pauli rewrites (symbolic complex coefficients) and the "
+         "predefined models denote the operator of the raw term list; spin-chain MPO builders equal the textbook Hamiltonians for symbolic couplings and agree with the matrix generators (L <= 4).",
+    note="Trusted: z3, qv engines. Substitutions: uint8 configuration buffers -> unbounded buffers (digit <= 255 side goal), complex work array of the MPO builder -> object array. "
+         "Coefficient universality of numeric-only APIs rests on linearity (one-term builders + two coefficient vectors). Outside: numba compilation, scipy.sparse internals, PEPO/2D/3D, "
+         "local dimension > 255. Three known findings (build_local_terms on constants, build_matrix_ikron of zero, sectors of non-conserving operators).",
+    design="3/C19",
+)
+
 NA = {}
 
 
